@@ -132,6 +132,11 @@ def r3_siblings(ctx, f, rep):
                     good = good and len(wr) == 1 and q.is_param(wr[0]['args'][0], 3 if m.startswith('encode') else 2)
                     if m.startswith('encode'):
                         good = good and q.is_param(tp[0]['args'][0], 2)
+                    # the stream handed to bincode is that very writer()/reader() adapter - nothing that buffers or
+                    # reads ahead sits in between (the cursor must move by exactly what one item takes)
+                    k = 1 if m.startswith('encode') else 0
+                    sv = (tp[0].get('derefs') or [None, None])[k]
+                    good = good and len(wr) == 1 and sv is not None and q.pre_havoc(sv) == ('call', wr[0]['id'])
                 if good and pre == PC and m.startswith('encode'):
                     fl = tp[0]['args'][1]
                     good = q.is_param(tp[0]['args'][0], 2) and \
